@@ -154,7 +154,7 @@ def _mode_cap(cls, dim, history):
         return {1: 8, 2: 8, 3: 6}[dim]
     if history:
         return {1: 32, 2: 16, 3: 10}[dim]
-    return 32
+    return 32 if dim < 4 else 6
 
 
 def _with_odd(draw, dim, cap):
@@ -172,9 +172,12 @@ def _with_odd(draw, dim, cap):
 @st.composite
 def _setup(draw, tier, history=False):
     cls = draw(st.sampled_from(ANALYTIC * 2 + HANKEL))
+    dims = (1, 2, 3)
+    if not history and cls in ("Gaussian", "Exponential", "Matern", "Integral") and draw(st.integers(0, 5)) == 0:
+        dims = (4,)  # x, y, z, t models have internal dimension 4 (six rotation angles)
     spec = draw(
         gens.model_specs(
-            classes=[cls], dims=(1, 2, 3), mode="accuracy", nugget=False, rescale=True, var_range=(1e-2, 1e2), scale_range=(1e-2, 1e2)
+            classes=[cls], dims=dims, mode="accuracy", nugget=False, rescale=True, var_range=(1e-2, 1e2), scale_range=(1e-2, 1e2)
         )
     )
     dim = spec["dim"]
